@@ -90,6 +90,18 @@ ModOp(a, b) ==
          IN  IF y = Zero \/ (x = MinInt /\ y = FromInt(0 - 1)) THEN U
              ELSE ZV(SRem(x, y))
 
+(* a hoch b: a Kommazahl; specified for an integral exponent of small magnitude (exact repeated multiplication inside the dyadic fragment,
+   the reciprocal for a negative exponent; 0 hoch n for n < 0 is +Unendlich); everything else (fractional exponents, large results) is open *)
+RECURSIVE KPow(_, _)
+KPow(x, n) == IF n = 0 THEN KFin(1, 0) ELSE LET r == KPow(x, n - 1) IN IF IsU(r) THEN U ELSE KMul(x, r)
+PowOp(a, b) ==
+    IF IsU(a) \/ IsU(b) THEN U
+    ELSE LET x == NumToK(a)
+             n == IF b.k = "K" THEN (IF KIsFin(b) /\ b.e = 0 THEN b.m ELSE 99) ELSE SmallIdx(b)
+         IN  IF IsU(x) \/ ~KIsFin(x) \/ n > 12 \/ n < 0 - 12 THEN U
+             ELSE IF n >= 0 THEN KPow(x, n)
+             ELSE LET d == KPow(x, 0 - n) IN IF IsU(d) THEN U ELSE KDiv(KFin(1, 0), d)
+
 BitOp(op, a, b) ==
     IF IsU(a) \/ IsU(b) THEN U
     ELSE IF a.k = "Z" /\ b.k = "Z" THEN ZV(CASE op = "band" -> BAnd(a.v, b.v) [] op = "bor" -> BOr(a.v, b.v) [] OTHER -> BXor(a.v, b.v))
@@ -248,6 +260,7 @@ EvalK6(P, e, env, st) ==
                         ELSE CASE e.op \in {"plus", "minus", "mal"} -> fin(Arith(e.op, a.v, b.v))
                                [] e.op = "durch" -> fin(LET x == NumToK(a.v) y == NumToK(b.v) IN IF IsU(x) \/ IsU(y) THEN U ELSE KDiv(x, y))
                                [] e.op = "mod" -> fin(ModOp(a.v, b.v))
+                               [] e.op = "pow" -> fin(PowOp(a.v, b.v))
                                [] e.op \in {"band", "bor", "bxor"} -> fin(BitOp(e.op, a.v, b.v))
                                [] e.op \in {"shl", "shr"} -> fin(ShiftOp(e.op, a.v, b.v))
                                [] e.op \in {"lt", "le", "gt", "ge"} -> fin(Compare(e.op, a.v, b.v))
@@ -411,22 +424,24 @@ RepeatLoop(P, s, env, st, n) ==
              ELSE RepeatLoop(P, s, env, b.st, n - 1)
 
 (* counting loop on a hidden counter cur (value of the counter type); `to` is re-evaluated before every iteration *)
+\* the hidden counter of a counting loop is a Zahl for Zahl and Byte counters and a Kommazahl for Kommazahl counters;
+\* the loop variable receives its conversion (modulo 256 for a Byte) before every iteration
+HT(s) == IF BaseOf(s.t) = "B" THEN TB("Z") ELSE s.t
 ForLoop(P, s, env, st, cur, step, up) ==
     IF st.fuel = 0 THEN X(env, Fail(st, "unspec"), "next", U)
     ELSE LET t == Eval(P, s.to, env, st)
          IN  IF ~Ok(t.st) THEN X(env, t.st, "next", U)
-             ELSE LET lim == Coerce(t.v, s.t)
+             ELSE LET lim == Coerce(t.v, HT(s))
                       go  == IF up THEN Compare("le", cur, lim) ELSE Compare("ge", cur, lim)
                   IN  IF IsU(go) THEN X(env, Fail(t.st, "unspec"), "next", U)
                       ELSE IF ~go.v THEN X(env, t.st, "next", U)
-                      ELSE LET s1 == Write(t.st, Lookup(env, s.v), cur)
+                      ELSE LET s1 == Write(t.st, Lookup(env, s.v), Coerce(cur, s.t))
                                b  == Block(P, s.body, env, [s1 EXCEPT !.fuel = @ - 1])
                                nx == Arith("plus", cur, step)
                            IN  IF ~Ok(b.st) \/ b.ctl = "ret" THEN b
                                ELSE IF b.ctl = "brk" THEN X(env, b.st, "next", U)
                                ELSE IF IsU(nx) THEN X(env, Fail(b.st, "unspec"), "next", U)
-                               ELSE IF BaseOf(s.t) = "Z" /\ (IF up THEN SLess(nx.v, cur.v) ELSE SLess(cur.v, nx.v)) THEN X(env, Fail(b.st, "unspec"), "next", U)   \* counter overflow
-                               ELSE IF BaseOf(s.t) = "B" THEN X(env, Fail(b.st, "unspec"), "next", U)      \* Byte counters: hidden counter width is open
+                               ELSE IF BaseOf(HT(s)) = "Z" /\ (IF up THEN SLess(nx.v, cur.v) ELSE SLess(cur.v, nx.v)) THEN X(env, Fail(b.st, "unspec"), "next", U)   \* counter overflow
                                ELSE ForLoop(P, s, env, b.st, nx, step, up)
 
 EachLoop(P, s, env, st, c, i) ==      \* c: private copy of the iterated Text/list, i: next position
@@ -497,12 +512,12 @@ ExecK8(P, s, env, st) ==
 ExecK9(P, s, env, st) ==
     LET q == EvalSeq(P, IF s.step.k = "none" THEN <<s.from>> ELSE <<s.from, s.step>>, 1, env, st)
            IN  IF ~Ok(q.st) THEN X(env, q.st, "next", U)
-               ELSE LET from == Coerce(q.vs[1], s.t)
-                        step == IF s.step.k = "none" THEN Coerce(ZI(1), s.t) ELSE Coerce(q.vs[2], s.t)
-                        zero == Coerce(ZI(0), s.t)
+               ELSE LET from == Coerce(q.vs[1], HT(s))
+                        step == IF s.step.k = "none" THEN Coerce(ZI(1), HT(s)) ELSE Coerce(q.vs[2], HT(s))
+                        zero == Coerce(ZI(0), HT(s))
                         pos  == Compare("gt", step, zero)
                     IN  IF IsU(from) \/ IsU(step) \/ IsU(pos) \/ step = zero THEN X(env, Fail(q.st, "unspec"), "next", U)
-                        ELSE LET d == Declare(env, q.st, s.v, from, FALSE)
+                        ELSE LET d == Declare(env, q.st, s.v, Coerce(from, s.t), FALSE)
                                  x == ForLoop(P, s, d.env, d.st, from, step, pos.v)
                              IN  X(env, x.st, x.ctl, x.rv)
 
